@@ -9,7 +9,7 @@ import (
 	"verifsim/world"
 )
 
-var internSites = []string{"intern.miss", "intern.locked", "intern.publish", "op.begin"}
+var internSites = []string{"intern.miss", "intern.locked", "intern.publish", "op.begin", "auto.atomic", "auto.lock", "auto.call"}
 var encodeSites = []string{"struct.size", "map.size", "map.append", "slice.size", "slice.encode", "json.size", "json.encode", "other"}
 
 var allDecodeSites = []string{"map.entry", "map.key", "map.value", "struct.read", "struct.append", "slice.elem", "slice.append", "time.read", "json.map", "json.array", "json.kv", "slice.varint"}
